@@ -1092,6 +1092,31 @@ func fmtDiffForms(r *core.Run) {
 				if c, isCall := v.(*ast.CallExpr); isCall && core.IsConversion(lpk.TypesInfo, c) && len(c.Args) == 1 {
 					v = core.Unparen(c.Args[0])
 				}
+				// a parameter of a range-building helper: what Format passes for it
+				if id, isID := v.(*ast.Ident); isID {
+					if hd := core.EnclosingFunc(lpk, id.Pos()); hd != nil && hd != lfd {
+						pi, k := -1, 0
+						for _, fl := range hd.Type.Params.List {
+							for _, nm := range fl.Names {
+								if lpk.TypesInfo.Defs[nm] == lpk.TypesInfo.ObjectOf(id) {
+									pi = k
+								}
+								k++
+							}
+						}
+						if pi >= 0 {
+							target := lpk.TypesInfo.Defs[hd.Name]
+							ast.Inspect(core.TreeBody(lpk, lfd), func(m ast.Node) bool {
+								if c, ok := m.(*ast.CallExpr); ok && pi < len(c.Args) {
+									if fn := core.CalleeFunc(lpk.TypesInfo, c); fn != nil && types.Object(fn.Origin()) == target {
+										v = core.Unparen(c.Args[pi])
+									}
+								}
+								return true
+							})
+						}
+					}
+				}
 				if sel, isSel := v.(*ast.SelectorExpr); isSel && strings.HasSuffix(core.TypeStr(lpk.TypesInfo.TypeOf(sel.X)), "parser.FmtDiff") {
 					got[which] = sel.Sel.Name
 				} else {
